@@ -292,7 +292,8 @@ class Gen:
                 p["decls"].append(d)
         if self.cfg["bind"] and level == 0 and not p["prefix"] and not passed and sig is None and not p["args"] \
                 and k == "subroutine" and ch.bool(1, 6):
-            p["bind"] = {"name": ch.choice([None, '"c_name"', "'CName'"])}
+            # (NAME= is not allowed on BIND(C) in an abstract interface)
+            p["bind"] = {"name": ch.choice([None, '"c_name"', "'CName'"]) if not in_interface else None}
         if in_interface:
             return p
         # locals
